@@ -116,3 +116,15 @@ Print Assumptions C06_mutex_creates_lock_file.
 Theorem C06_backend_is_flock : filelock_backend_is_flock = true.
 Proof. exact backend_is_flock. Qed.
 Print Assumptions C06_backend_is_flock.
+
+Theorem C06_truncate_error_keeps_lock : truncate_unlock_inside_regular_check = true.
+Proof. exact truncate_error_keeps_lock. Qed.
+Print Assumptions C06_truncate_error_keeps_lock.
+
+(* Mutex.Lock (like every call) returns the error of its open: no second open, no lock *)
+Theorem C06_open_error_is_returned : forall fl b i c plan s s',
+  os_step i c (OOpen (strip fl openfile_strip_mask)) (plan 0) false s = Some (RErr, s') ->
+  run_seq i c (client_prog fl b) plan 0 s =
+  ([(OOpen (strip fl openfile_strip_mask), RErr)], Finished ResErr, s').
+Proof. exact open_error_is_returned. Qed.
+Print Assumptions C06_open_error_is_returned.
